@@ -258,7 +258,7 @@ def check_case(rec, spec, config, steps):
     return failure
 
 
-# three fixed workbooks for the exhaustive short-history pass
+# fixed workbooks for the exhaustive short-history pass
 FIXED_SPECS = [
     dict(sheets={'S': {'A1': 1, 'B1': 2, 'A2': '=A1+B1', 'B2': '=SUM(A1:B1)',
                        'A3': '=SUM(A2:B2)', 'B3': '=IF(A1>0,A2,B2)'},
@@ -289,9 +289,21 @@ FIXED_SPECS = [
          names={}, active='S', inputs=['S!A1', 'S!B1'],
          formulas=['S!A2', 'S!B2', 'S!C2', 'S!D2', 'S!A3', 'S!B3', 'S!C3'],
          ranges=['S!A3:B3']),
+    # formula cells that hold error values when the model is obtained, inside
+    # a range that other formulas read; the error goes away with a write
+    dict(sheets={'S': {'A1': 0, 'B1': 10, 'C1': 'k', 'A2': '=B1/A1',
+                       'B2': '=B1+C1', 'C2': '=A1+1', 'A3': '=SUM(A2:C2)',
+                       'B3': '=COUNT(A2:C2)&"/"&A2', 'C3': '=IFERROR(A3,-1)',
+                       'A4': '=(A2:B2):C2', 'B4': '=SUM(A1:(C1))'},
+                 'In': {'A1': 5, 'B3': 1}},
+         arrays=[], names={}, active='S', inputs=['S!A1', 'S!B1', 'S!C1'],
+         formulas=['S!A2', 'S!B2', 'S!C2', 'S!A3', 'S!B3', 'S!C3', 'S!A4',
+                   'S!B4'],
+         ranges=['S!A2:C2']),
 ]
-# (the workbook with stored results is read from a file)
-FIXED_CONFIGS = {3: ['xlsx']}
+# (the workbook with stored results is read from a file; the error values
+# must survive every way of obtaining the model)
+FIXED_CONFIGS = {3: ['xlsx'], 4: ['mem', 'xlsx', 'yml', 'json', 'pkl']}
 SHORT_VALUES = [None, 0, False, 1, True, 5, '']
 
 
